@@ -1,13 +1,16 @@
 ----------------------------------------- MODULE RunWithDb_mc -----------------------------------------
 (* TLC configurations of RunWithDb: every cycle history of <= MaxCyc cycles x 0..MaxBurn burn steps, the start points
-   chosen by WithStarts, both stacks, coupling off / on; every single failure. *)
+   chosen by WithStarts, both stacks, coupling off / on (with every set of cycles exempt from coupling); every single failure. *)
 EXTENDS RunWithDb
 CONSTANTS MaxCyc, MaxBurn, Tights, WithStarts, MaxLevel, RestartFrom, Phase2Fails
 
 RHists == UNION {[1..k -> 0..MaxBurn] : k \in 1..MaxCyc}
 RStarts(steps) == IF WithStarts THEN UNION {{<<c, n>> : n \in 0..steps[c + 1]} : c \in 0..(Len(steps) - 1)} ELSE {<<0, 0>>}
 Stacks == {<<"main", "f", "db", "f">>, <<"f", "db", "f">>}
-RInit == \E h \in RHists, stack \in Stacks, tg \in Tights : \E s \in RStarts(h) : RInitWith(h, s[1], s[2], stack, tg)
+\* exempt-cycle patterns: none without coupling; with coupling every subset of the cycles
+RSkips(h, tg) == IF tg THEN [1..Len(h) -> BOOLEAN] ELSE {[k \in 1..Len(h) |-> FALSE]}
+RInit == \E h \in RHists, stack \in Stacks, tg \in Tights : \E s \in RStarts(h), sk \in RSkips(h, tg) :
+             RInitWith(h, s[1], s[2], stack, tg, sk)
 \* which first runs are restarted (RestartFrom \subseteq {"completed", "aborted"}) and whether the restarted run may fail too
 RestartOK == /\ (phase = 2 /\ crash1.e = "none") => "completed" \in RestartFrom
              /\ (phase = 2 /\ crash1.e # "none") => "aborted" \in RestartFrom
@@ -15,7 +18,7 @@ RestartOK == /\ (phase = 2 /\ crash1.e = "none") => "completed" \in RestartFrom
 Bound == TLCGet("level") <= MaxLevel /\ RestartOK
 \* one JSON line per finished run (completed or aborted): configuration, failure point, the file the specification predicts
 EmitRun == (pc = "Done" \/ ~Running) =>
-              PrintT(ToJson([steps |-> cfg.steps, sc |-> cfg.sc, sn |-> cfg.sn, tight |-> cfg.tight, roles |-> roles,
+              PrintT(ToJson([steps |-> cfg.steps, sc |-> cfg.sc, sn |-> cfg.sn, tight |-> cfg.tight, skip |-> cfg.skip, roles |-> roles,
                              crash |-> crash, file |-> FileView, val |-> val, phase |-> phase, crash1 |-> crash1,
                              nsrc |-> Len(src)]))
 =====================================================================================================
